@@ -65,15 +65,34 @@ def gen_case(r):
         bylist.setdefault((key, num), []).append((i, j))
     connectors = []
     mods = []
+    staged = r.random() < 0.6          # chains of derived symbols: bonded stage 0 -> bonded stage 1 (-> 2), and a non-bonded chain
+    deep = staged and r.random() < 0.4
+    chains = []
     for (key, num), pl in sorted(bylist.items()):
         name = lname(num, key[0], key[1])
         connectors.append(dict(name=name, species=list(key), pairs=pl))
         mods.append(["ConnectBasic", {"forceName": name, "species1": key[0], "species2": key[1], "pairFactor": "[rij]"}])
         mods.append(["BondedPairParticleVector", {"species1": key[0], "species2": key[1], "listName": name, "symbol": "s" + name, "expression": "[rij]", "symmetry": "-1"}])
+        if staged:
+            # u = sum over the listed bonds of [rij]:[s_first]  (stage 1: reads the bonded sum s of stage 0), symmetric
+            mods.append(["BondedPairParticleScalar", {"species1": key[0], "species2": key[1], "listName": name, "symbol": "u" + name,
+                                                      "expression": "[rij]:[s%si]" % name, "symmetry": "1"}])
+            chains.append((name, key))
+            if deep:
+                # w = sum over the listed bonds of u_first + u_second  (stage 2)
+                mods.append(["BondedPairParticleScalar", {"species1": key[0], "species2": key[1], "listName": name, "symbol": "w" + name,
+                                                          "expression": "u%si+u%sj" % (name, name), "symmetry": "1"}])
+    nb_chain = r.choice([0, 1, 2, 3]) if staged else 0     # depth of the NON-bonded symbol chain of every colour pair
     for sa in species:
         for sb in species:
             if sa <= sb:
                 mods.append(["FPairVels", {"species1": sa, "species2": sb, "cutoff": "1", "pairFactor": "0*[rij]"}])
+    # non-bonded chain n0 (stage 0), n1 = sum of n0i+n0j (stage 1), ... on the pair (first species, first species)
+    for k in range(nb_chain):
+        expr = "1" if k == 0 else "n%di+n%dj" % (k - 1, k - 1)
+        mods.append(["PairParticleScalar", {"species1": species[0], "species2": species[0], "symbol": "n%d" % k, "expression": expr, "cutoff": "1", "symmetry": "1"}])
+    if staged and r.random() < 0.5:
+        r.shuffle(mods)
     verlet = r.random() < 0.4
     integ = "IntegratorVelocityVerletDisp" if verlet else "IntegratorVelocityVerlet"
     integrators = []
@@ -88,7 +107,8 @@ def gen_case(r):
           "pair_creator": ["VerletCreator", {"skinSize": "1/4", "displacement": "displacement"}] if verlet else ["LinkedListCreator", {}],
           "particles": [{"species": p["species"], "r": [symlib.rat(x) for x in p["r"]], "v": [symlib.rat(x) for x in p["v"]]} for p in parts],
           "species_order": species, "connectors": connectors}
-    meta = dict(L=L, periodic=periodic, topology=topo, species=len(species), verlet=verlet, nbonds=len(pairs))
+    meta = dict(L=L, periodic=periodic, topology=topo, species=len(species), verlet=verlet, nbonds=len(pairs), staged=staged, deep=deep,
+                nb_chain=nb_chain, chains=[c[0] for c in chains])
     return sc, meta
 
 
@@ -147,6 +167,47 @@ def oracle_step(st, sc, meta):
         if not close(f, force[k], 256):
             errs.append("force on particle %s is %s, the sum over its bonds is %s" % (k, [str(x) for x in f], [str(x) for x in force[k]]))
             break
+    # derived bonded symbols: every listed bond evaluated exactly once per step by each bonded symbol of its list, in stage order
+    def tag(p, n):
+        t = p["tag"].get(n)
+        return None if t is None else t[2]
+    for name in meta.get("chains", []):
+        s_exp = {k: [F(0)] * 3 for k in pos}
+        u_exp = {k: F(0) for k in pos}
+        w_exp = {k: F(0) for k in pos}
+        bl = [b for b in st["bonds"] if b["list"] == name]
+        for b in bl:
+            ka, kc = (b["c1"], b["s1"]), (b["c2"], b["s2"])
+            d = minimg([x - y for x, y in zip(pos[ka]["r"], pos[kc]["r"])], meta["L"], meta["periodic"])
+            for k in range(3):
+                s_exp[ka][k] += d[k]
+                s_exp[kc][k] -= d[k]
+        for b in bl:
+            ka, kc = (b["c1"], b["s1"]), (b["c2"], b["s2"])
+            d = minimg([x - y for x, y in zip(pos[ka]["r"], pos[kc]["r"])], meta["L"], meta["periodic"])
+            val = sum(d[k] * s_exp[ka][k] for k in range(3))
+            u_exp[ka] += val
+            u_exp[kc] += val
+        for b in bl:
+            ka, kc = (b["c1"], b["s1"]), (b["c2"], b["s2"])
+            val = u_exp[ka] + u_exp[kc]
+            w_exp[ka] += val
+            w_exp[kc] += val
+        touched = {(b["c1"], b["s1"]) for b in bl} | {(b["c2"], b["s2"]) for b in bl}
+        for k in sorted(touched):
+            p = pos[k]
+            got = tag(p, "s" + name)
+            if got is not None and not close(got, s_exp[k], 256):
+                errs.append("bonded sum s%s of particle %s is %s, the sum over its listed bonds is %s" % (name, k, [str(x) for x in got], [str(x) for x in s_exp[k]]))
+                break
+            got = tag(p, "u" + name)
+            if got is not None and not close([got], [u_exp[k]], 2 ** 16):
+                errs.append("bonded symbol u%s (stage 1) of particle %s is %s, the sum over its listed bonds is %s" % (name, k, got, u_exp[k]))
+                break
+            got = tag(p, "w" + name)
+            if got is not None and not close([got], [w_exp[k]], 2 ** 20):
+                errs.append("bonded symbol w%s (stage 2) of particle %s is %s, the sum over its listed bonds is %s" % (name, k, got, w_exp[k]))
+                break
     return errs
 
 
